@@ -116,62 +116,73 @@ def C20_dir_invariant_stmt : Prop :=
     (step env ⟨m, []⟩ it).2 ≠ .panic →
     (step env (step env ⟨m, []⟩ it).1 next).2 = (step env ⟨(step env ⟨m, []⟩ it).1.gcovType, []⟩ next).2
 
-/-- It is false: (1) a profile item leaves `grcov.profdata`, and a worker in MultipleFiles mode
-reads it as the gcov output of the next notes file, which is then rejected. -/
+/-- It is false without a contract on gcov. In SingleFile mode a file that one gcov run wrote
+beside its own output stays in the directory and is taken for the output of a later notes file
+whose run wrote nothing. (The other counter-example, the merged profile left by a profile item,
+is gone since 2cb069b: `C20_llvm_dir_unchanged`.) The provable parts are the theorems above and
+`C20_llvm_dir_unchanged`; under the gcov contract the consequence that matters is `C20_isolation`. -/
 theorem C20_dir_invariant_false : ¬ C20_dir_invariant_stmt := by
   intro h
-  have := h witnessEnvProfdata .multi ⟨.profraw, .paths []⟩ ⟨.gcno, .path [117] uGcno⟩ (by decide)
+  have := h witnessEnvLeftover .single ⟨.gcno, .path [97] aGcno⟩ ⟨.gcno, .path [117] uGcno⟩ (by decide)
   revert this
   decide
 
-/-- (2) In SingleFile mode a file that one gcov run wrote beside its own output is taken for the
-output of a later notes file whose run wrote nothing: that item contributes the other item's data
-(on its own it would kill the worker: "Failed to open gcov file"). -/
+/-- The same witness as a run: the second item contributes the first item's extra file (on its own
+it would kill the worker: "Failed to open gcov file"). -/
 theorem C20_single_leftover_read_witness :
     (runItems witnessEnvLeftover init witnessItemsLeftover).2
         = [.results [([115], 1)], .results [([115], 2)]] ∧
       solo witnessEnvLeftover .single ⟨.gcno, .path [117] uGcno⟩ = .panic := by
   decide
 
+/-- A profile item leaves the worker directory as it found it: the merged profile
+`grcov.profdata` is removed on every way out of `llvm_profiles_to_lcov` (success, tool error, a
+panic of `find_binaries`), whatever the merge tool wrote. Exactly: afterwards the directory is the
+old one minus a regular file of that name; in particular it is unchanged when no such entry
+existed, and the latched gcov mode is never touched. Without `--binary-path`, or for an item that
+is not a path list, nothing is touched at all. -/
+theorem C20_llvm_dir_unchanged (env : Env) (st : WorkerState) (f : ItemFormat) (t : ItemType)
+    (hf : f = .profraw ∨ f = .profdata) :
+    (step env st ⟨f, t⟩).1 = ⟨st.gcovType, rmFile st.dir PROFDATA⟩ ∨ (step env st ⟨f, t⟩).1 = st := by
+  have hs : step env st ⟨f, t⟩ = stepLlvm env st t := by rcases hf with h | h <;> subst h <;> rfl
+  rw [hs]
+  cases hb : env.hasBinary with
+  | false => right; simp [stepLlvm, hb]
+  | true =>
+    cases t with
+    | paths ps => left; exact stepLlvm_dir env st ps hb
+    | path _ _ => right; simp [stepLlvm, hb]
+    | content _ => right; simp [stepLlvm, hb]
+    | buffers _ _ => right; simp [stepLlvm, hb]
+
+/-- … and so, when the directory held no `grcov.profdata` before (it never does unless gcov itself
+writes a file of that name), it is literally the same directory afterwards. -/
+theorem C20_llvm_dir_unchanged_of_absent (env : Env) (st : WorkerState) (f : ItemFormat) (t : ItemType)
+    (hf : f = .profraw ∨ f = .profdata) (habs : get? st.dir PROFDATA = none) :
+    (step env st ⟨f, t⟩).1 = st := by
+  rcases C20_llvm_dir_unchanged env st f t hf with h | h
+  · rw [h, rmFile_of_absent habs]
+  · exact h
+
 /-! ### isolation -/
 
-/-- Full statement: under the gcov contract alone (regular files only, one output convention for
-all successful runs) a worker's results are the solo results of its items. -/
+/-- Isolation (C07 third sentence, C20 "for every thread count"): under the gcov contract (gcov
+writes regular files only; all successful runs follow one output convention) what a worker yields
+for its items is, item by item, what each item yields on its own in an empty directory – it does
+not depend on the other items the worker processed (notes files, profile lists, lcov, JaCoCo,
+buffers), on their order, or on whether they were accepted, rejected or had a failing gcov run.
+After a panic the worker yields nothing more. -/
 def C20_isolation_stmt : Prop :=
-  ∀ (env : Env) (m : GcovType) (items : List Item), Guard0 env m items →
+  ∀ (env : Env) (m : GcovType) (items : List Item), Guard env m items →
     (runItems env init items).2 = cut (items.map (solo env m))
 
-/-- False of the code: the profile-merge output left in the directory (witness above, a gcov that
-names its output after the source and not after the notes file – gcov 12 does). -/
-theorem C20_isolation_false : ¬ C20_isolation_stmt := by
-  intro h
-  have G : Guard0 witnessEnvProfdata .multi witnessItemsProfdata := by
-    refine ⟨Or.inr rfl, ?_, ?_⟩
-    · intro stem g _ w hw
-      simp [witnessEnvProfdata] at hw
-      subst hw; simp
-    · intro stem g hg _
-      simp [witnessItemsProfdata] at hg
-      obtain ⟨_, hg⟩ := hg
-      subst hg
-      decide
-  have := h _ _ _ G
-  revert this
-  decide
-
-/-- Isolation, with exactly the extra guard the witness violates (in MultipleFiles mode the
-profile merge leaves nothing in the worker's directory): what a worker yields for its items is,
-item by item, what each item yields on its own in an empty directory – it does not depend on the
-other items the worker processed, on their order, or on whether they were accepted, rejected or
-had a failing gcov run. After a panic the worker yields nothing more. -/
-theorem C20_isolation_partial (env : Env) (m : GcovType) (items : List Item) (G : Guard env m items) :
-    (runItems env init items).2 = cut (items.map (solo env m)) :=
-  runItems_solo env m items G init (good_init G.mode)
+theorem C20_isolation : C20_isolation_stmt :=
+  fun env m items G => runItems_solo env m items G init (good_init G.mode)
 
 /-- For every thread count and every assignment of the items to workers (each worker with its own
 directory, any order inside a worker): if no item kills its worker, the contributions of the run
 are, as a multiset, the solo contributions of the items. -/
-theorem C20_every_assignment_partial (env : Env) (m : GcovType) (items : List Item)
+theorem C20_every_assignment (env : Env) (m : GcovType) (items : List Item)
     (G : Guard env m items) (workers : List (List Item)) (hw : workers.flatten.Perm items)
     (hnp : ∀ it ∈ items, solo env m it ≠ .panic) :
     ((workers.map fun w => (runItems env init w).2).flatten.flatMap contrib).Perm
@@ -180,7 +191,7 @@ theorem C20_every_assignment_partial (env : Env) (m : GcovType) (items : List It
     hw.subset (List.mem_flatten.mpr ⟨w, hwm, hit⟩)
   have hrun : ∀ w ∈ workers, (runItems env init w).2 = w.map (solo env m) := by
     intro w hwm
-    rw [C20_isolation_partial env m w (G.mono (hsub w hwm))]
+    rw [C20_isolation env m w (G.mono (hsub w hwm))]
     apply cut_of_no_panic
     intro r hr
     obtain ⟨it, hit, rfl⟩ := List.mem_map.mp hr
@@ -203,7 +214,7 @@ theorem C20_no_panic_partial (env : Env) (m : GcovType) (items : List Item) (G :
     intro r hr
     obtain ⟨it, hit, rfl⟩ := List.mem_map.mp hr
     exact solo_ne_panic env m items G P it hit
-  rw [C20_isolation_partial env m items G, cut_of_no_panic hnp]
+  rw [C20_isolation env m items G, cut_of_no_panic hnp]
   exact hnp
 
 /-- The guards are needed: a successful gcov run that does not write `<notes file name><ext>`
@@ -367,6 +378,10 @@ example : (runItems exEnv init exItems).2
     = [.results [([100, 47, 115, 46, 99], 1)], .rejected, .rejected, .results [([108], 7)]] := by decide
 example : (runItems exEnv init exItems).2 = exItems.map (solo exEnv .single) := by decide
 example : (runItems exEnv init exItems.reverse).2 = exItems.reverse.map (solo exEnv .single) := by decide
+-- the witness of the former finding C20-profdata-left-in-worker-dir now behaves
+example : (runItems witnessEnvProfdata init witnessItemsProfdata).2
+    = witnessItemsProfdata.map (solo witnessEnvProfdata .multi) := by decide
+example : (runItems witnessEnvProfdata init witnessItemsProfdata).1.dir = [] := by decide
 example : parseVersion [103, 99, 111, 118, 32, 40, 71, 67, 67, 41, 32, 49, 50, 46, 50, 46, 48, 10]
     = some ⟨12, 2, 0, false⟩ := by decide
 example : outputExt ⟨9, 1, 0, true⟩ = EXT_TEXT ∧ outputExt ⟨9, 1, 0, false⟩ = EXT_GZ := by decide
